@@ -105,13 +105,13 @@ def encSample (num : Nat) (a : St) (t : Int) (v : Nat) : Bits × St :=
   | 0 => (putVarint t ++ natToBits v 64, { a with t := t, v := v, tDelta := 0 })
   | 1 =>
     let td := toU (t - a.t)
-    let (vb, l, tr) := xorWrite (v ^^^ a.v) a.leading a.trailing
-    (putUvarint td ++ vb, ⟨t, v, td, l, tr⟩)
-  | _ =>
+    let w := xorWrite (v ^^^ a.v) a.leading a.trailing
+    (putUvarint td ++ w.1, ⟨t, v, td, w.2.1, w.2.2⟩)
+  | _ + 2 =>
     let td := toU (t - a.t)
     let dod := toI ((td + two64 - a.tDelta) % two64)
-    let (vb, l, tr) := xorWrite (v ^^^ a.v) a.leading a.trailing
-    (dodBits dod ++ vb, ⟨t, v, td, l, tr⟩)
+    let w := xorWrite (v ^^^ a.v) a.leading a.trailing
+    (dodBits dod ++ w.1, ⟨t, v, td, w.2.1, w.2.2⟩)
 
 /-- `xorIterator.Next` when `numRead` samples were read: new state and remaining bits; `none` = error. -/
 def decSample (numRead : Nat) (d : St) (bits : Bits) : Option (St × Bits) :=
@@ -131,7 +131,7 @@ def decSample (numRead : Nat) (d : St) (bits : Bits) : Option (St × Bits) :=
       match xorRead d.v d.leading d.trailing r with
       | none => none
       | some (v, l, tr, r') => some (⟨t, v, td, l, tr⟩, r')
-  | _ =>
+  | _ + 2 =>
     match readDod bits with
     | none => none
     | some (dod, r) =>
